@@ -7,12 +7,12 @@ VERIF = os.path.dirname(os.path.dirname(os.path.abspath(__file__)))
 
 COMMON_NOTE = ("Trusted: Coq 8.16.1 kernel; no axioms (Print Assumptions output is recorded per theorem in the "
                "evidence; the thorough tier re-checks the compiled theorems with coqchk -o and records its axiom summary); hand-written Gallina model tied to /repo by regenerated tables (harness/gen_tables.py), by "
-               "re-translation of yarl/_path.py, of unsplit_result / make_netloc (yarl/_parse.py) and of the constructors encode_url / pre_encoded_url / __str__ / __eq__ / ordering operators (yarl/_url.py) from the source with proofs of equality to the model (harness/gen_model.py; C15_source_*, C07_source_*) "
+               "re-translation of yarl/_path.py, of unsplit_result / make_netloc (yarl/_parse.py) and of the constructors encode_url / pre_encoded_url / __str__ / __eq__ / ordering operators / accessors / modifiers / join (yarl/_url.py) from the source with proofs of equality to the model (harness/gen_model.py; C15_source_*, C07_source_*) "
                "and by a differential correspondence check of the extracted model (ExtrOcamlBasic only) against "
                "both quoting backends built from the working tree; extracted theorem predicates applied to the "
                "implementation's outputs.")
 
-TECH = ("Coq proof (Rocq 8.16.1, kernel-checked, no axioms) over a hand-written Gallina model; tie to the source: tables regenerated from /repo each run, Python-ast-to-Gallina re-translation of _path.py, unsplit_result, make_netloc, encode_url, pre_encoded_url, __str__, __eq__ and the ordering operators with equality proofs, "
+TECH = ("Coq proof (Rocq 8.16.1, kernel-checked, no axioms) over a hand-written Gallina model; tie to the source: tables regenerated from /repo each run, Python-ast-to-Gallina re-translation of _path.py, unsplit_result, make_netloc, encode_url, pre_encoded_url, __str__, __eq__, the ordering operators, 14 accessors, 10 modifiers and join with equality proofs, "
         "extracted-model differential correspondence against both backends, extracted theorem predicates evaluated on the implementation's outputs")
 
 CHECKS = {
@@ -122,7 +122,9 @@ CHECKS = {
         "text": ("Proved for every URL value, modifier and argument: the stored scheme/path/query/fragment strings change only as the "
                  "modifier documents (frame_spec), non-authority modifiers keep the authority text, authority modifiers re-assemble it "
                  "from the current parts and the result reads those parts back (split_netloc inverts make_netloc) incl. IPv6 brackets, "
-                 "explicit port, empty-vs-absent password; quoted user/password never contain a raw delimiter. The accessor-level frame "
+                 "explicit port, empty-vs-absent password; quoted user/password never contain a raw delimiter; with_scheme, with_user, "
+                 "with_password, with_host, with_port, with_fragment, with_path, origin, relative and parent of yarl/_url.py are "
+                 "re-translated from the source on every run and proved equal to the model functions (C11_source_*). The accessor-level frame "
                  "predicate is applied to the implementation on the 10752-base matrix x 47 modifier calls. Known findings F7, F17 excluded."),
         "design_ref": "DESIGN.md section 7 C11",
     },
@@ -155,7 +157,9 @@ CHECKS = {
     "C14": {
         "text": ('Proved: a reference with a different scheme or a base scheme outside USES_RELATIVE is returned unchanged; otherwise the '
                  'five encoded components of join are exactly RFC 3986 5.2.2 (non-strict) with 5.2.3 merge and 5.2.4 remove_dot_segments '
-                 '(Spec/Resolve.v, transcribed independently) whenever the merged path is rooted. PARTIAL: rootless base + rootless '
+                 '(Spec/Resolve.v, transcribed independently) whenever the merged path is rooted; URL.join of yarl/_url.py is re-translated '
+                 'from the source on every run and proved to never raise and to equal the model function (C14_source_join). '
+                 'PARTIAL: rootless base + rootless '
                  'reference is outside the theorem; there known finding F19 (refuted witness) applies exactly when the merged path has a '
                  'dot segment; everything else is checked by the extracted transform predicate on ~75k base x reference pairs per run '
                  "(both backends), including every reference of <= 4 segments over {.., ., '', g}."),
